@@ -1,6 +1,7 @@
 """C14 - IAPWS-97.  Rules CHAIN, USE, DERIV, GUARD, TRANSP."""
 import ast
 from ..core import AnalysisError, norm, dotted, call_name, walk_no_nested, Folder, TOP
+from ..formula import check_formula, compare
 from ..intervals import constraints, negate_last, Interval, fold_num
 
 LEVEL = 'other'
@@ -334,8 +335,12 @@ def rule_guard(run):
                   'box is t %r, p %r' % (t, p), where=reg.where())
     # tcritical derived from tcriticalk and tc_k
     v, _ = prog.resolve_global(MOD, 'tcritical')
-    run.check(isinstance(v, ast.AST) and norm(v) == 'tcriticalk - tc_k', 'IAPWS97.tcritical :: tcriticalk - tc_k',
-              'tcritical is %s' % (norm(v) if isinstance(v, ast.AST) else v), where='IAPWS97.py')
+    if isinstance(v, ast.AST):
+        r = compare(v, 'tcriticalk - tc_k')
+        kk = 'IAPWS97.tcritical :: tcriticalk - tc_k'
+        if r == 'equal': run.ok(kk)
+        elif r == 'different': run.violated(kk, 'tcritical is `%s`, not tcriticalk - tc_k' % norm(v), where='IAPWS97.py')
+        else: run.unknown(kk, 'tcritical is `%s`' % norm(v), where='IAPWS97.py')
 
 
 def _quad_rows(fi, names):
@@ -409,12 +414,11 @@ def rule_transp(run):
         run.violated(key, 'sat uses %s, whose transpose is %s, but tsat uses %s: tsat does not invert sat'
                      % (M, MT, N), where=ft.where())
     # theta2 really is theta*theta, beta really is sqrt(beta2)
-    txt_s, txt_t = norm(fs.node), norm(ft.node)
-    run.check('theta2 = theta * theta' in txt_s, 'IAPWS97.sat :: theta2 = theta*theta', 'theta2 is not theta*theta', where=fs.where())
-    run.check('beta = sqrt(beta2)' in txt_t and 'beta2 = sqrt(p / pstar4)' in txt_t, 'IAPWS97.tsat :: beta2 = sqrt(p/p*), beta = sqrt(beta2)',
-              'beta/beta2 are not the 4th/2nd roots of p/pstar4', where=ft.where())
-    run.check('p = pstar4 * x * x' in txt_s and 'x = x * x' in txt_s, 'IAPWS97.sat :: p = pstar4 * x**4',
-              'pressure is not pstar4 times the fourth power of the root', where=fs.where())
+    check_formula(run, 'IAPWS97.sat :: theta2 = theta*theta', fs, 'theta2', 'theta * theta', 'theta2 is not the square of theta')
+    check_formula(run, 'IAPWS97.tsat :: beta = sqrt(beta2)', ft, 'beta', 'sqrt(beta2)', 'beta is not the square root of beta2')
+    check_formula(run, 'IAPWS97.tsat :: beta2 = sqrt(p / pstar4)', ft, 'beta2', 'sqrt(p / pstar4)', 'beta2 is not sqrt(p/p*)')
+    check_formula(run, 'IAPWS97.sat :: p = pstar4 * x**4', fs, 'p', 'pstar4 * x * x', 'pressure is not p* times the fourth power of the root')
+    check_formula(run, 'IAPWS97.sat :: x squared in place', fs, 'x', 'x * x', 'root is not squared', which=-1)
 
 
 def check(run):
